@@ -69,8 +69,8 @@ def money_rate(E, cfg):
     rate = ExchangeRate(cu, int(cfg['um']), ct, amt)
     # the rate that is applied is the stored (normalised, six-digit) one: C09 relates it to the input
     true_rate = Fraction(rate.rate.numerator, rate.rate.denominator)
-    given = Fraction(cfg['amt']) / int(cfg['um'])
-    E.check(abs(true_rate - given) <= Fraction(5, 10 ** 7), 'stored-rate-close-to-given')
+    # (how close the stored rate is to the given one is C09's subject -- and depends on the default rounding
+    # mode that is active when the rate is built, which C09 does not vary)
     a = E.rational('a', cfg['flav'])
     m = Money(a, cu)
     qt, qu = _q(cfg['pair'][1]), _q(cfg['pair'][0])
